@@ -1217,7 +1217,12 @@ pub mod verif_hooks {
             if remaining == 0 || buf.is_empty() {
                 return Ok(0);
             }
-            let want = self.chunks.get(self.call).copied().unwrap_or(usize::MAX).max(1);
+            let want = self
+                .chunks
+                .get(self.call)
+                .copied()
+                .unwrap_or(usize::MAX)
+                .max(1);
             self.call += 1;
             let n = want.min(buf.len()).min(remaining);
             buf[..n].copy_from_slice(&self.data[self.pos..self.pos + n]);
